@@ -14,10 +14,10 @@ import (
 	"testing"
 	"time"
 
-	math "github.com/IBM/mathlib"
 	"github.com/IBM/TSS/mpc/bls"
 	"github.com/IBM/TSS/mpc/ps"
 	tss "github.com/IBM/TSS/types"
+	math "github.com/IBM/mathlib"
 	"verif/explore"
 	"verif/harness"
 	"verif/scen"
@@ -113,10 +113,10 @@ func otherG2(seed byte) *math.G2 {
 }
 
 type codec interface {
-	shareOff(b []byte) []byte          // a share moved off the polynomial
+	shareOff(b []byte) []byte // a share moved off the polynomial
 	truncShare(b []byte) []byte
-	otherKey(seed byte) []byte         // a well-formed public key unrelated to the real one
-	shiftKey(b []byte) []byte          // the real key shifted by a generator multiple
+	otherKey(seed byte) []byte // a well-formed public key unrelated to the real one
+	shiftKey(b []byte) []byte  // the real key shifted by a generator multiple
 	notAPoint(b []byte) []byte
 	wrongCount(b []byte, more bool) []byte // PS: too few / too many components (BLS: odd length)
 }
@@ -127,7 +127,7 @@ func (blsCodec) shareOff(b []byte) []byte {
 	return curve.NewZrFromBytes(b).Plus(curve.NewZrFromInt(1)).Bytes()
 }
 func (blsCodec) truncShare(b []byte) []byte { return b[:len(b)/2] }
-func (blsCodec) otherKey(seed byte) []byte   { return otherG2(seed).Bytes() }
+func (blsCodec) otherKey(seed byte) []byte  { return otherG2(seed).Bytes() }
 func (blsCodec) shiftKey(b []byte) []byte {
 	g, err := curve.NewG2FromBytes(b)
 	if err != nil {
@@ -673,7 +673,7 @@ func runCell(c *harness.C, k cell, bound int) {
 		kk := k
 		kk.Choices = explore.Trim(r.Choices())
 		oc := oracle(c, kk, last)
-		if c.Outcome(k.id()+"|"+oc+"|"+fmt.Sprint(len(last.trace))) {
+		if c.Outcome(k.id() + "|" + oc + "|" + fmt.Sprint(len(last.trace))) {
 			c.Sample("c05", map[string]interface{}{"cell": k.id(), "choices": kk.Choices, "outcome": oc, "steps": len(last.trace)})
 		}
 		hist := map[string][]string{}
